@@ -558,6 +558,7 @@ def _ops(tier, subject, length):
             ops.append(['appendSelector', mi, 'obj'])
         for i in range(length):
             ops.append(['set', i, mi, 'text'])
+            ops.append(['set', -i - 1, mi, 'text'])  # (negative indexes count from the end)
             if ident is not None:
                 ops.append(['set', i, mi, 'obj'])
             # the text of a member set on the member itself (an existing Selector object gets a new text)
